@@ -654,14 +654,20 @@ pub fn run_c19(out: &mut Out, tier: &str, _seed: u64) {
     }
     mlock_errno(libc::ENOMEM);
     // the other Result-returning constructors
-    for (name, f) in [("HeapBytes::new_locked", 0), ("HeapBytes::gen_locked", 1), ("HeapByteArray<32>::new_locked", 2), ("HeapByteArray<32>::gen_readonly_locked", 3), ("HeapBytes::from_slice_into_readonly_locked", 4), ("HeapByteArray<32>::from_slice_into_locked", 5)] {
+    for (name, f) in [("HeapBytes::new_locked", 0), ("HeapBytes::gen_locked", 1), ("HeapByteArray<32>::new_locked", 2), ("HeapByteArray<32>::gen_readonly_locked", 3), ("HeapBytes::from_slice_into_readonly_locked", 4), ("HeapByteArray<32>::from_slice_into_locked", 5),
+                      ("StackByteArray<32>::mlock", 6), ("StackByteArray<64>::mlock", 7), ("HeapByteArray<32>::mlock", 8), ("HeapBytes::mlock", 9), ("HeapByteArray<32>::new_readonly_locked", 10), ("HeapByteArray<32>::from_slice_into_readonly_locked", 11), ("HeapBytes::from_slice_into_locked", 12)] {
         let mut fds = [0i32; 2]; unsafe { libc::pipe(fds.as_mut_ptr()); }
         let pid = unsafe { libc::fork() };
         if pid == 0 {
             unsafe { libc::close(fds[0]); } let mut w = unsafe { <std::fs::File as std::os::unix::io::FromRawFd>::from_raw_fd(fds[1]) };
             mlock_set(1);
             let r = std::panic::catch_unwind(|| match f { 0 => HeapBytes::new_locked().map(|_| ()).map_err(|_| ()), 1 => HeapBytes::gen_locked().map(|_| ()).map_err(|_| ()), 2 => HeapByteArray::<32>::new_locked().map(|_| ()).map_err(|_| ()),
-                3 => HeapByteArray::<32>::gen_readonly_locked().map(|_| ()).map_err(|_| ()), 4 => HeapBytes::from_slice_into_readonly_locked(&[7u8; 40]).map(|_| ()).map_err(|_| ()), _ => HeapByteArray::<32>::from_slice_into_locked(&[7u8; 32]).map(|_| ()).map_err(|_| ()) });
+                3 => HeapByteArray::<32>::gen_readonly_locked().map(|_| ()).map_err(|_| ()), 4 => HeapBytes::from_slice_into_readonly_locked(&[7u8; 40]).map(|_| ()).map_err(|_| ()),
+                6 => StackByteArray::<32>::from(&[7u8; 32]).mlock().map(|_| ()).map_err(|_| ()), 7 => StackByteArray::<64>::from(&[7u8; 64]).mlock().map(|_| ()).map_err(|_| ()),
+                8 => HeapByteArray::<32>::from(&[7u8; 32]).mlock().map(|_| ()).map_err(|_| ()), 9 => HeapBytes::from(&[7u8; 40][..]).mlock().map(|_| ()).map_err(|_| ()),
+                10 => HeapByteArray::<32>::new_readonly_locked().map(|_| ()).map_err(|_| ()), 11 => HeapByteArray::<32>::from_slice_into_readonly_locked(&[7u8; 32]).map(|_| ()).map_err(|_| ()),
+                12 => HeapBytes::from_slice_into_locked(&[7u8; 5000]).map(|_| ()).map_err(|_| ()),
+                _ => HeapByteArray::<32>::from_slice_into_locked(&[7u8; 32]).map(|_| ()).map_err(|_| ()) });
             let _ = w.write_all(match r { Ok(Ok(())) => b"ok\n", Ok(Err(())) => b"err\n", Err(_) => b"panic\n" }); let _ = w.flush(); unsafe { libc::_exit(0); }
         }
         unsafe { libc::close(fds[1]); } let mut r = unsafe { <std::fs::File as std::os::unix::io::FromRawFd>::from_raw_fd(fds[0]) }; let mut t = String::new(); let _ = r.read_to_string(&mut t); let mut st = 0; unsafe { libc::waitpid(pid, &mut st, 0); }
